@@ -95,12 +95,22 @@ def extract_json(body, schema):
         raise webob.exc.HTTPBadRequest(
             'Malformed JSON: %(error)s' % {'error': exc},
             json_formatter=json_error_formatter)
+    error = None
     try:
         jsonschema.validate(data, schema,
                             format_checker=jsonschema.FormatChecker())
     except jsonschema.ValidationError as exc:
+        try:
+            # Rendering the error includes the offending part of the document
+            # and so can itself exceed the recursion limit.
+            error = str(exc)
+        except RecursionError:
+            error = 'the document is nested too deeply'
+    except RecursionError:
+        error = 'the document is nested too deeply'
+    if error is not None:
         raise webob.exc.HTTPBadRequest(
-            'JSON does not validate: %(error)s' % {'error': exc},
+            'JSON does not validate: %(error)s' % {'error': error},
             json_formatter=json_error_formatter)
     return data
 
